@@ -23,9 +23,9 @@ theorem assert_nil_iff (g : Int) (st : StreamType) (other : List Nat) (e a : Res
 /-- non-vacuity: a well-formed pair that agrees although it differs (name case, an extra
 trailer, values joined, another allowed code, timeout inside the window, status absent) -/
 example :
-    let e : Result := ⟨[⟨"X-A", ["1".toList, "2".toList]⟩], [⟨[1, 2], some ⟨[], some 1000, [⟨0, [7]⟩], []⟩⟩],
+    let e : Result := ⟨[⟨"X-A", ["1".toList, "2".toList]⟩], [⟨[1, 2], some ⟨[], some 1000, [⟨"M", [7]⟩], []⟩⟩],
       some ⟨5, none, []⟩, [], 0, some 200⟩
-    let a : Result := ⟨[⟨"x-a", ["1, 2".toList]⟩], [⟨[1, 2], some ⟨[], some 600, [⟨0, [7]⟩], []⟩⟩],
+    let a : Result := ⟨[⟨"x-a", ["1, 2".toList]⟩], [⟨[1, 2], some ⟨[], some 600, [⟨"M", [7]⟩], []⟩⟩],
       some ⟨9, some "whatever", []⟩, [⟨"extra", []⟩], 3, none⟩
     WellFormed e a ∧ assert 500 .serverStream [9] e a = [] ∧ a ≠ e := by decide
 
@@ -357,9 +357,9 @@ theorem status_differs (g : Int) (st : StreamType) (other : List Nat) (e a : Res
 a repeated trailer, the timeout just below the window -/
 example :
     let p (b : UInt8) (t : Option Int) : Payload := ⟨[b], some ⟨[], t, [], []⟩⟩
-    let e : Result := ⟨[], [p 1 (some 2000), p 2 none, p 3 none], some ⟨3, none, [.other ⟨0, [1]⟩, .other ⟨0, [2]⟩]⟩,
+    let e : Result := ⟨[], [p 1 (some 2000), p 2 none, p 3 none], some ⟨3, none, [.other ⟨"D", [1]⟩, .other ⟨"D", [2]⟩]⟩,
       [⟨"x-t", ["1".toList, "2".toList]⟩], 0, none⟩
-    let a : Result := ⟨[], [p 1 (some 1499), p 2 none, p 4 none], some ⟨3, none, [.other ⟨0, [1]⟩, .other ⟨0, [9]⟩]⟩,
+    let a : Result := ⟨[], [p 1 (some 1499), p 2 none, p 4 none], some ⟨3, none, [.other ⟨"D", [1]⟩, .other ⟨"D", [9]⟩]⟩,
       [⟨"x-t", ["1".toList, "3".toList]⟩], 0, none⟩
     assert 500 .serverStream [] e a =
       [.detail 2, .timeoutRange, .payloadData 3, .headerValues .responseTrailers "x-t"] := by decide
